@@ -26,6 +26,8 @@ for f in sorted(glob.glob('/verif/seeded/*/meta.json')):
         det = "**yes** (%s): `%s`" % (best[0], (best[1]['fingerprints'] or ['?'])[0][:110])
     elif other:
         det = "by " + ", ".join(other)
+    elif m.get('note'):
+        det = "not reported on the current tree (exit %s): %s" % (res.get('quick', {}).get('exit'), str(m['note']).replace('\n', ' ')[:220])
     else:
         r = res.get('quick', {})
         det = "no (exit %s)" % r.get('exit')
